@@ -18,7 +18,13 @@ const (
 	hrErrIf  = 2 // an error-typed (interface) result
 	hrErrPtr = 3 // a result of the concrete error type *hErrT
 	hrP2     = 4
+	hrAny    = 5 // interface{}: every error value is assignable to it, it is not an error result
+	hrErrish = 6 // a named interface with method Error() string that is not the type error
 )
+
+// hErrish has the method set of error but is a different type.
+type hErrish interface{ Error() string }
+
 
 func hResType(k int) reflect.Type {
 	switch k {
@@ -30,6 +36,10 @@ func hResType(k int) reflect.Type {
 		return hType(hTP2)
 	case hrErrIf:
 		return errType
+	case hrAny:
+		return reflect.TypeOf((*interface{})(nil)).Elem()
+	case hrErrish:
+		return reflect.TypeOf((*hErrish)(nil)).Elem()
 	}
 	return reflect.TypeOf((*hErrT)(nil))
 }
@@ -37,7 +47,9 @@ func hResType(k int) reflect.Type {
 // HarnessC17 — Result accessors partition the function's return values.
 //
 //	k      number of results before the (optional) final slot, 0..3
-//	final  0: no further result, 1: a final error, 2: a final *hErrT (concrete error type)
+//	final  0: no further result, 1: a final error, 2: a final *hErrT (concrete error type),
+//	       3: a final interface{} result, 4: a final result of an interface type that has
+//	       error's method set but is not error (3 and 4 symbolically hold an error value)
 //	form   0 positional results, 1 one marker-struct result (k fields) before the final slot
 func HarnessC17(k, final, form int) {
 	hOrderSites(0)
@@ -80,6 +92,10 @@ func HarnessC17(k, final, form int) {
 		outs = append(outs, errType)
 	case 2:
 		outs = append(outs, hResType(hrErrPtr))
+	case 3:
+		outs = append(outs, hResType(hrAny))
+	case 4:
+		outs = append(outs, hResType(hrErrish))
 	}
 	// concrete values the body returns; nil-ness of error slots is symbolic
 	n := len(outs)
@@ -102,6 +118,13 @@ func HarnessC17(k, final, form int) {
 			}
 			ptrObjs[i] = &hErrT{ID: i}
 		}
+		if outs[i] == hResType(hrAny) || outs[i] == hResType(hrErrish) {
+			// an interface-typed ordinary result: nil, or holding an error value
+			if vnBool("nil", i) {
+				isNil[i] = true
+			}
+			errObjs[i] = fmt.Errorf("error object %d in a non-error interface result", i)
+		}
 		if form == 2 && i == 0 && vnBool("nilStructPtr") {
 			isNil[0] = true // the function returns a nil *struct
 		}
@@ -115,9 +138,9 @@ func HarnessC17(k, final, form int) {
 		res := make([]reflect.Value, n)
 		for i, t := range outs {
 			switch {
-			case t == errType:
+			case t == errType, t == hResType(hrAny), t == hResType(hrErrish):
 				if isNil[i] {
-					res[i] = reflect.Zero(errType)
+					res[i] = reflect.Zero(t)
 				} else {
 					res[i] = reflect.ValueOf(errObjs[i])
 				}
@@ -191,6 +214,13 @@ func HarnessC17(k, final, form int) {
 		}
 		t := outs[i]
 		switch {
+		case t == hResType(hrAny), t == hResType(hrErrish):
+			if isNil[i] {
+				vnAssert(got == nil, "C17.out-nil-interface-result")
+			} else {
+				vnAssert(got == interface{}(errObjs[i]), "C17.out-interface-result-holding-an-error-is-an-ordinary-output")
+			}
+			vnCover("C17.final-non-error-interface-checked")
 		case t == errType:
 			if isNil[i] {
 				vnAssert(got == nil, "C17.out-nil-error-in-non-final-position")
@@ -335,5 +365,21 @@ func HarnessC17Once(form int) {
 			vnAssert(ids[0].T == first.L.T && ids[0].ID == first.ID, "C17.once.out-is-the-first-execution's-value")
 		}
 	}
+	// a later call whose resolution fails (the input is missing, or a nil option is
+	// passed) has length 0 and an error, no matter that the function has a cached result
+	var r3 Result
+	bad := vnBool("laterCallBadOption")
+	if hGuardPlain(func() {
+		if bad {
+			r3 = f.Call(Typed(hP0{vnPayload("z")}), nil)
+		} else {
+			r3 = f.Call()
+		}
+	}) {
+		vnAssert(false, "C17.once.unresolvable-call-does-not-panic")
+		return
+	}
+	vnAssert(r3.Err() != nil, "C17.once.unresolvable-later-call-has-an-error")
+	vnAssert(r3.Len() == 0, "C17.once.unresolvable-later-call-has-length-0")
 	vnCover("C17.once-checked")
 }
